@@ -609,7 +609,7 @@ pub fn run_c08(p: &Params) -> Outcome {
                     ops.push(HOp::V(VOp::Txn(vec![VOp::PopFront, VOp::PushBack(6)], TxEnd::Commit)));
                 }
             }
-            ops.push(HOp::DropVec);
+            ops.push(if leaf % 3 == 2 { HOp::DropVecIntoInner } else { HOp::DropVec });
             let h = VecHistory { capacity: cap, init: vec![1, 2], ops };
             judge_vec("C08", &h, json!({"gen": gen_name, "case": ri, "leaf": leaf}), out, &nt);
             leaf += 1;
